@@ -567,7 +567,105 @@ fn ensure_distinct(data: &mut Vec<Vec<f64>>, k: &mut usize) {
     }
 }
 
+/// small fixed data sets for the exhaustive-initialisation batch
+fn tiny_datasets() -> Vec<Vec<Vec<f64>>> {
+    vec![
+        vec![vec![0.0], vec![1.0], vec![5.0], vec![6.0]],
+        vec![vec![0.0], vec![0.0], vec![1.0], vec![10.0], vec![10.0]],
+        vec![vec![0.0, 0.0], vec![0.0, 1.0], vec![1.0, 0.0], vec![1.0, 1.0], vec![5.0, 5.0]],
+        vec![vec![-1.5], vec![0.1], vec![0.2], vec![0.3], vec![2.5], vec![2.5]],
+        vec![vec![0.0, 0.0], vec![2.0, 0.0], vec![1.0, 0.0], vec![1.0, 3.0], vec![1.0, -3.0], vec![0.0, 0.0]],
+        vec![vec![0.1, 0.7], vec![0.3, 0.7], vec![0.2, 0.1], vec![0.9, 0.4], vec![0.9, 0.5], vec![0.5, 0.5]],
+    ]
+}
+
+/// (data set, k, chosen row for every seeding step)
+fn tiny_plans() -> &'static Vec<(usize, usize, Vec<usize>)> {
+    static S: std::sync::OnceLock<Vec<(usize, usize, Vec<usize>)>> = std::sync::OnceLock::new();
+    S.get_or_init(|| {
+        let mut out = vec![];
+        for (di, d) in tiny_datasets().iter().enumerate() {
+            let n = d.len();
+            for k in 2..=3usize {
+                if distinct_rows(d) < k {
+                    continue;
+                }
+                let total = n.pow(k as u32);
+                for code in 0..total {
+                    let mut c = code;
+                    let mut t = vec![];
+                    for _ in 0..k {
+                        t.push(c % n);
+                        c /= n;
+                    }
+                    out.push((di, k, t));
+                }
+            }
+        }
+        out
+    })
+}
+
+/// Words that make k-means++ pick `targets[0]` as first centroid and then, at step j, the row `targets[j]`
+/// (cut-off in the middle of that row's slice of the cumulative D^2 mass). The D^2 bookkeeping is mirrored
+/// here only to aim the words; if a target has zero mass the cut-off sits on the slice boundary and
+/// k-means++ legitimately picks a neighbour — every tape is a legal sequence of draws either way.
+fn words_for_seeding(data: &[Vec<f64>], targets: &[usize]) -> Vec<Word> {
+    let n = data.len();
+    let mut words = vec![];
+    let i0 = targets[0];
+    let mut v = (((i0 as u128) << 64) / n as u128) as u64;
+    if ((v as u128 * n as u128) >> 64) as usize != i0 {
+        v += 1;
+    }
+    words.push(Word(64, v));
+    let mut dist = vec![f64::INFINITY; n];
+    let mut cur = i0;
+    for t in targets.iter().skip(1) {
+        for i in 0..n {
+            let dd = d2(&data[i], &data[cur]);
+            if dd < dist[i] {
+                dist[i] = dd;
+            }
+        }
+        let sum: f64 = dist.iter().sum();
+        let before: f64 = dist.iter().take(*t).sum();
+        let r = if sum > 0.0 { ((before + dist[*t] / 2.0) / sum).clamp(0.0, 1.0 - 1e-16) } else { 0.5 };
+        let frac = (r * 9007199254740992.0) as u64; // 2^53
+        words.push(Word(64, frac << 11));
+        // which row will the real code pick? (mirror of its scan)
+        let cutoff = (frac as f64 / 9007199254740992.0) * sum;
+        let mut cost = 0.0;
+        let mut idx = 0;
+        while idx < n {
+            cost += dist[idx];
+            if cost >= cutoff && dist[idx] > 0.0 {
+                break;
+            }
+            idx += 1;
+        }
+        cur = idx.min(n - 1);
+    }
+    words
+}
+
 fn gen_case(batch: &str, _index: u64, seed: u64) -> Case {
+    if batch == "fit-exhaustive-small" {
+        let (di, k, targets) = &tiny_plans()[_index as usize];
+        let data = tiny_datasets()[*di].clone();
+        let words = words_for_seeding(&data, targets);
+        return Case {
+            mode: "fit".into(),
+            data,
+            k: *k,
+            max_iter: [1usize, 2, 100][(_index % 3) as usize],
+            f32m: false,
+            centroids: vec![],
+            queries: vec![],
+            tape: TapeSpec::prng(seed).with_prefix(words),
+            kind: format!("tiny#{}/forced-initialisation {:?}", di, targets),
+        };
+    }
     let mut r = Xo::fork(seed, "workload");
     let mut pr = Xo::fork(seed, "parameters");
     let tape_seed = Xo::fork(seed, "schedule").u64();
@@ -670,6 +768,7 @@ impl Property for C12 {
     fn batches(&self, tier: Tier) -> Vec<Batch> {
         let q = tier == Tier::Quick;
         vec![
+            Batch { name: "fit-exhaustive-small", count: tiny_plans().len() as u64, simulated: true, exhaustive: true, note: "six fixed data sets of 4..6 rows (duplicates, lattice, collinear): every tuple of rows k-means++ can be steered to (first index x every D^2 slice) for k = 2, 3, forced through the RNG seam" },
             Batch { name: "fit-prng", count: if q { 60_000 } else { 4_000_000 }, simulated: true, exhaustive: false, note: "k-means++ draws served from the seeded PRNG tape; in-run probe judged at every Lloyd step" },
             Batch { name: "fit-extreme", count: if q { 40_000 } else { 2_000_000 }, simulated: true, exhaustive: false, note: "extreme words (cut-off 0.0, 1-2^-53, first/last row) injected at random draw sites" },
             Batch { name: "fit-forced-first", count: if q { 12_000 } else { 500_000 }, simulated: true, exhaustive: false, note: "first centroid forced onto a chosen (often duplicated / last) row" },
